@@ -108,7 +108,11 @@ def explore_vm(linked, prog, fname, inst, label):
         return None
 
     eng = Engine(max_decisions=120, max_paths=150, path_timeout=5.0)
+    import time as _time
+    eng.deadline = _time.time() + 60.0        # wall-clock budget per build; beyond it the instance is reported as cut
     paths = eng.explore(fn, pre)
+    if eng.truncated:
+        res["cut"] += 1
     res["paths"] = len(paths)
     for p in paths:
         if p.kind == "cut":
@@ -261,14 +265,23 @@ def replay(spec):
     f = [x for x in prog.funcs if x.name == inst["fname"] and x.exported][0]
     vals = spec.get("inputs", {})
     gnames = [n for _, n in prog.globals]
+    import signal
+
+    def _alarm(signum, frame):
+        raise TimeoutError("VM did not terminate in 5 s")
+    old = signal.signal(signal.SIGALRM, _alarm)
+    signal.setitimer(signal.ITIMER_REAL, 5.0)
     try:
         joint.vm_run(linked, inst["fname"], joint.concrete_inputs(f.params, vals, structs=prog.structs),
                      joint.concrete_inputs(prog.globals, vals, prefix="g_", structs=prog.structs), gnames)
-    except RecursionError:
+    except (RecursionError, TimeoutError):
         return None
     except Exception as e:  # noqa: BLE001
         if vm_failure_kind(e) == "internal":
             return dict(vm_exception=f"{type(e).__name__}: {e}", args=joint.concrete_inputs(f.params, vals, structs=prog.structs))
+    finally:
+        signal.setitimer(signal.ITIMER_REAL, 0)
+        signal.signal(signal.SIGALRM, old)
     return None
 
 
